@@ -308,19 +308,40 @@ theorem c07_closed_refuted : ¬ (∀ (H : Heap) (a : ActionIn) (s : Snapshot), c
   obtain ⟨s, hs, hn, hm⟩ := h1
   exact hn ((hall _ _ s hs).1 _ hm)
 
-/-- **deferred snapshots keep one identity** — a snapshot completed later by its callback (stage line_capture /
-    method_capture) with the returned / raised value, for every event and value: one entry per object and per id, same object ⇔
-    same id across frame, watches and the captured value (a returned local is a back reference, not a second entry), and the
-    only reference that can dangle is one made for a collected frame's locals dict. -/
-theorem c07_deferred_identity (H : Heap) (a : ActionIn) (event : String) (value : ObjId) (s : Snapshot)
-    (h : deferredSnapshot H a event value = .ok s) :
+/-- **deferred snapshots keep one identity, two heaps** — a snapshot completed later by its callback (stage line_capture /
+    method_capture) with the returned / raised value; `H` = the program state at the tracepoint's line, `H'` = the state at the
+    completing event (the host ran in between), every event and value: one entry per object and per id, same object ⇔ same id
+    across frame, watches and the captured value, and the only reference that can dangle is one made for a collected frame's
+    locals dict.  NOTE what "same object ⇔ same id" means here: a returned object that phase 1 had recorded is a back
+    reference to its PHASE-1 entry — the rendering of the object as it was at the line, not as it is returned
+    (`C05.c05_stale_capture_witness`). -/
+theorem c07_deferred_identity (H H' : Heap) (a : ActionIn) (event : String) (value : ObjId) (s : Snapshot)
+    (h : deferredSnapshot2 H H' a event value = .ok s) :
     ((∀ o, (s.table.filter (fun e => e.obj = o)).length ≤ 1) ∧ (∀ v, (s.table.filter (fun e => e.vid = v)).length ≤ 1)) ∧
     (∀ r1 ∈ snapRefs s, ∀ r2 ∈ snapRefs s, (r1.1 = r2.1 ↔ r1.2 = r2.2)) ∧
     (∀ r ∈ snapRefs s, r.2 ∈ s.table.map (·.vid) ∨ r.1 ∈ localsOf a.frames) := by
-  obtain ⟨ws, hw⟩ := deferred_is_collect H a event value
-  rw [hw] at h
-  exact ⟨c07_once H ⟨a.limits, a.frames, ws⟩ s h, c07_same_object_same_id H ⟨a.limits, a.frames, ws⟩ s h,
-    c07_dangling_only_locals H ⟨a.limits, a.frames, ws⟩ s h⟩
+  obtain ⟨c, f, hcov⟩ := deferred2_facts h
+  have tp := f.inv.tpair
+  refine ⟨⟨?_, ?_⟩, ?_, ?_⟩
+  · intro o
+    apply filter_length_le_one
+    refine tp.imp ?_
+    intro x y hxy hp
+    simp only [decide_eq_true_eq] at hp
+    exact hxy.1 (hp.1.trans hp.2.symm)
+  · intro v
+    apply filter_length_le_one
+    refine tp.imp ?_
+    intro x y hxy hp
+    simp only [decide_eq_true_eq] at hp
+    exact hxy.2 (hp.1.trans hp.2.symm)
+  · intro r1 h1 r2 h2
+    have m1 := mem_snapRefs f r1 h1
+    have m2 := mem_snapRefs f r2 h2
+    exact ⟨fun e => f.inv.cok.id_inj (o := r1.1) m1 (by rw [e]; exact m2),
+           fun e => f.inv.cok.obj_inj (v := r1.2) m1 (by rw [e]; exact m2)⟩
+  · intro r hr
+    exact hcov r (mem_snapRefs f r hr)
 
 /-- non-vacuity: `a = []; a.append(a); b = "hello world"`, the line returns `a`: the captured value reuses id 2 of the local -/
 example : (match deferredSnapshot Ex.selfList ⟨⟨40, 1024, 10, 5⟩, Ex.frame0, []⟩ "return" 1 with
